@@ -246,6 +246,16 @@ fn gen_spec(rng: &mut Rng, inv: &Inv, dist: &mut Dist) -> Spec {
       3..=7 => 1,
       _ => 2,
     };
+    // one near-valid offer in eight is valid in everything but the SIGN of the balance change: the
+    // wallet would lose exactly the named amount instead of gaining it (no other mutation, so
+    // every other clause holds)
+    let nmut = if amount > 0 && amount <= 10_000 && rng.chance(1, 8) {
+      delta = -2 * amount as i64;
+      dist.hit("sign_flip_only");
+      0
+    } else {
+      nmut
+    };
     let mut has_seller = true;
     for _ in 0..nmut {
       let choice = rng.below(14);
@@ -258,8 +268,15 @@ fn gen_spec(rng: &mut Rng, inv: &Inv, dist: &mut Dist) -> Spec {
       };
       match choice {
         0 => {
-          delta = *rng.pick(&[-1i64, 1, -546, 1000]);
-          dist.hit("mut_delta");
+          if amount > 0 && amount <= 100_000_000 && rng.chance(1, 3) {
+            // the wallet LOSES exactly the named amount (balance change = -amount): right
+            // magnitude, wrong sign
+            delta = -2 * amount as i64;
+            dist.hit("mut_delta_sign_flip");
+          } else {
+            delta = *rng.pick(&[-1i64, 1, -546, 1000]);
+            dist.hit("mut_delta");
+          }
         }
         1 => {
           named = if rng.chance(1, 2) { *rng.pick(&inv.all_ids) } else { bogus_id(rng) };
